@@ -37,6 +37,14 @@ class TShared(param.Parameterized):
     k = param.Number(1, bounds=(0, 5), allow_refs=True, constant=True, per_instance=False)
 
 
+class TRo(T):
+    k = param.Number(1, bounds=(0, 5), allow_refs=True, readonly=True)
+
+
+class TSharedRo(TShared):
+    k = param.Number(1, bounds=(0, 5), allow_refs=True, readonly=True, per_instance=False)
+
+
 def _inc(v):
     return None if v is None else v + 1
 
@@ -56,7 +64,7 @@ class System:
         SC = SClamp if st.get("clamp") else S
         self.s = {i: SC(v=V(src[i])) for i in (1, 2)}
         kw = {n: self.mkref(r) for n, r in st["link"].items() if r["k"] != "none"}
-        self.t = (T if opts.get("perinst", True) else TShared)(**kw)
+        self.t = ((TRo if st.get("ro") else T) if opts.get("perinst", True) else (TSharedRo if st.get("ro") else TShared))(**kw)
         self.cm = None
         self.kf = set()
         self.tolerate = set(opts.get("tolerate", ()))
@@ -108,10 +116,18 @@ class System:
                             so.v = V(a["v"])
                 except ValueError:
                     return "invalid"
-            elif n == "ref":
-                setattr(self.t, a["n"], self.mkref(a["ref"]))
-            elif n == "plain":
-                setattr(self.t, a["n"], [7, 7] if a["n"] == "r" else a["v"])
+            elif n in ("ref", "plain"):
+                value = self.mkref(a["ref"]) if n == "ref" else [7, 7] if a["n"] == "r" else a["v"]
+                if a.get("via") == "trig":
+                    # a watcher of the other scalar parameter makes the assignment; that parameter is triggered
+                    other = "q" if a["n"] == "p" else "p"
+                    w = self.t.param.watch(lambda ev: setattr(self.t, a["n"], value), other)
+                    try:
+                        self.t.param.trigger(other)
+                    finally:
+                        self.t.param.unwatch(w)
+                else:
+                    setattr(self.t, a["n"], value)
             elif n == "trigger":
                 self.t.param.trigger(a["n"])
             elif n == "plaineq":
